@@ -16,7 +16,7 @@ args = sys.argv[1:]
 tag = "main"
 if "--tag" in args:
     i = args.index("--tag"); tag = args[i + 1]; del args[i:i + 2]
-scratch = "/tmp/vx_matrix_" + tag
+scratch = "/tmp/vx_matrix_%s_%d" % (tag, os.getpid())     # unique per launch: a leftover process of an earlier launch must never share it
 props = None
 if "--scratch" in args:
     i = args.index("--scratch"); scratch = args[i + 1]; del args[i:i + 2]
@@ -28,6 +28,8 @@ sys.path.insert(0, os.path.join(V, "bin"))
 import vxprops
 props = props or ",".join(sorted(vxprops.PROPS))
 
+commit_at_launch = subprocess.run(["git", "-C", V, "rev-parse", "--short", "HEAD"], capture_output=True, text=True).stdout.strip() + \
+    ("+uncommitted" if subprocess.run(["git", "-C", V, "status", "--porcelain"], capture_output=True, text=True).stdout.strip() else "")
 mrepo = os.path.join(scratch, "repo")
 mverif = os.path.join(scratch, "verif")
 if os.path.exists(scratch):
@@ -49,7 +51,7 @@ try:
     log = open(os.path.join(V, "gen", "matrix_%s.log" % tag), "w")
     subprocess.run(["python3", os.path.join(mverif, "bin", "seedtest.py")] + dirs + ["--props", props], env=env, stdout=log, stderr=subprocess.STDOUT, cwd=mverif)
     res = json.load(open(os.path.join(mverif, "gen", "seedtest.json")))
-    json.dump({"wall_s": round(time.time() - t0), "verif_commit": subprocess.run(["git", "-C", V, "rev-parse", "--short", "HEAD"], capture_output=True, text=True).stdout.strip(), "results": res},
+    json.dump({"wall_s": round(time.time() - t0), "verif_commit": commit_at_launch, "results": res},
               open(os.path.join(V, "gen", "matrix_%s.json" % tag), "w"), indent=1)
 finally:
     subprocess.run(["git", "-C", "/repo", "worktree", "remove", "--force", mrepo], capture_output=True)
